@@ -128,3 +128,20 @@ pub fn compile_project(p: &Project, entry: &str) -> Result<Compiled, String> {
   let loader_js = r.text_code_results.get("__samlang_loader__.js").cloned().unwrap_or_default();
   Ok(Compiled { ts, wasm: r.wasm_file, wat, main_fn, loader_js })
 }
+
+/// the same for several entry points at once: (wasm, per entry: (typescript, encoded main))
+pub fn compile_project_multi(p: &Project, entries: &[&str]) -> Result<(Vec<u8>, Vec<(String, String)>), String> {
+  let mut heap = Heap::new();
+  let handles = source_handles(&mut heap, p);
+  let refs: Vec<ModuleReference> = entries.iter().map(|e| mod_ref(&mut heap, e)).collect();
+  let r = samlang_compiler::compile_sources(&mut heap, handles, refs, false)?;
+  let per = entries
+    .iter()
+    .map(|e| {
+      let ts = r.text_code_results.get(&format!("{e}.ts")).cloned().unwrap_or_default();
+      let main_fn = ts.trim_end().rsplit('\n').next().unwrap_or("").trim_end_matches("();").to_string();
+      (ts, main_fn)
+    })
+    .collect();
+  Ok((r.wasm_file, per))
+}
